@@ -1630,7 +1630,7 @@ func (c *Ctx) tbeCount(rule string) int {
 }
 
 // ---------------------------------------------------------------------------------------------
-// COLLECT-ALL: a loop that ranges over a parameter holding the requested items (names, tips ...)
+// COLLECT-ALL: a loop that ranges over a parameter holding the requested names ([]string, ...string, [][]string)
 // and collects something per item (store into a map, append) must look at every item: an unlabeled
 // `break` out of it that is not an error exit (no error variable assigned in the breaking block)
 // silently drops the items after the current one.
@@ -1654,7 +1654,16 @@ func (c *Ctx) collectAll(rule string, funcs []*FuncInfo, clause string) (n, nvio
 			if !params[identObj(info, rs.X)] {
 				return true
 			}
-			if _, isSlice := info.TypeOf(rs.X).Underlying().(*types.Slice); !isSlice {
+			sl, isSlice := info.TypeOf(rs.X).Underlying().(*types.Slice)
+			if !isSlice {
+				return true
+			}
+			// requested items = names: []string (or groups of names [][]string)
+			el := sl.Elem()
+			if in, ok := el.Underlying().(*types.Slice); ok {
+				el = in.Elem()
+			}
+			if b, ok := el.Underlying().(*types.Basic); !ok || b.Info()&types.IsString == 0 {
 				return true
 			}
 			var items []types.Object
@@ -1904,10 +1913,11 @@ func (c *Ctx) lexLossless(rule string, pkgs ...string) (n int) {
 			continue
 		}
 		sig := fi.Obj.Type().(*types.Signature)
-		if sig.Results().Len() != 2 {
+		if sig.Results().Len() < 1 {
 			continue
 		}
-		if b, ok := sig.Results().At(1).Type().Underlying().(*types.Basic); !ok || b.Info()&types.IsString == 0 {
+		litIdx := sig.Results().Len() - 1
+		if b, ok := sig.Results().At(litIdx).Type().Underlying().(*types.Basic); !ok || b.Info()&types.IsString == 0 {
 			continue
 		}
 		info := fi.Pkg.TypesInfo
@@ -1952,12 +1962,12 @@ func (c *Ctx) lexLossless(rule string, pkgs ...string) (n int) {
 				return false
 			}
 			rs, ok := m.(*ast.ReturnStmt)
-			if !ok || len(rs.Results) != 2 || rs.Pos() < loop.End() {
+			if !ok || len(rs.Results) != litIdx+1 || rs.Pos() < loop.End() {
 				return true
 			}
 			nret++
 			good := false
-			res := unparen(rs.Results[1])
+			res := unparen(rs.Results[litIdx])
 			if v := identObj(info, res); v != nil {
 				// a local (or named result) defined once as B.String()
 				k, def := 0, ast.Expr(nil)
@@ -1977,7 +1987,7 @@ func (c *Ctx) lexLossless(rule string, pkgs ...string) (n int) {
 				}
 			}
 			if !good && bad == "" {
-				bad = c.src(rs.Results[1])
+				bad = c.src(rs.Results[litIdx])
 			}
 			return true
 		})
@@ -2277,20 +2287,19 @@ func (c *Ctx) indexSync(rule string, funcs []*FuncInfo) (n, nviol int) {
 			}
 			return true
 		})
+		// an index handed in as a parameter (the phase that inserts, split from the one that builds it)
+		sigI := fi.Obj.Type().(*types.Signature)
+		for i := 0; i < sigI.Params().Len(); i++ {
+			if strings.HasSuffix(strings.ToLower(sigI.Params().At(i).Type().String()), "tree.nodeindex") {
+				idxVars[sigI.Params().At(i)] = true
+			}
+		}
 		if len(idxVars) == 0 {
 			continue
 		}
-		ast.Inspect(fi.Decl.Body, func(m ast.Node) bool {
-			var body *ast.BlockStmt
-			switch l := m.(type) {
-			case *ast.RangeStmt:
-				body = l.Body
-			case *ast.ForStmt:
-				body = l.Body
-			default:
-				return true
-			}
-			// outermost loops only: consult + insert anywhere inside
+		{
+			body := fi.Decl.Body
+			// the index is consulted and nodes are inserted in the same function, one of the two in a loop
 			var consulted types.Object
 			var inserts []*ast.CallExpr
 			added := map[types.Object]bool{} // node variables given to AddNode of the index
@@ -2313,11 +2322,20 @@ func (c *Ctx) indexSync(rule string, funcs []*FuncInfo) (n, nviol int) {
 					continue
 				}
 				if inRepo(g) && g.Pkg() == fi.Obj.Pkg() && createsNode(g) {
-					inserts = append(inserts, call)
+					inLoop := false
+					for _, a := range stackTo(body, call) {
+						switch a.(type) {
+						case *ast.RangeStmt, *ast.ForStmt:
+							inLoop = true
+						}
+					}
+					if inLoop {
+						inserts = append(inserts, call)
+					}
 				}
 			}
 			if consulted == nil || len(inserts) == 0 {
-				return true
+				continue
 			}
 			for _, ins := range inserts {
 				n++
@@ -2334,11 +2352,10 @@ func (c *Ctx) indexSync(rule string, funcs []*FuncInfo) (n, nviol int) {
 					c.OK(rule, key, ins.Pos(), "the node created in the loop is added to the index the loop consults")
 				} else {
 					nviol++
-					c.Violation(rule, key, ins.Pos(), fmt.Sprintf("the loop looks names up in %s, built before the loop, and adds nodes to the tree with %s without adding them to %s: a later group whose existing member was inserted by an earlier group is silently skipped", consulted.Name(), calleeOf(info, ins).Name(), consulted.Name())).Clause = clause
+					c.Violation(rule, key, ins.Pos(), fmt.Sprintf("names are looked up in the index %s, built beforehand, and nodes are added to the tree with %s in a loop without adding them to %s: a later group whose existing member was inserted by an earlier group is silently skipped", consulted.Name(), calleeOf(info, ins).Name(), consulted.Name())).Clause = clause
 				}
 			}
-			return false
-		})
+		}
 	}
 	return
 }
